@@ -24,6 +24,7 @@ import (
 	codectypes "github.com/cosmos/cosmos-sdk/codec/types"
 	cryptocodec "github.com/cosmos/cosmos-sdk/crypto/codec"
 	"github.com/cosmos/cosmos-sdk/crypto/keys/secp256k1"
+	"github.com/cosmos/cosmos-sdk/server"
 	"github.com/cosmos/cosmos-sdk/store"
 	pruningtypes "github.com/cosmos/cosmos-sdk/store/pruning/types"
 	simtestutil "github.com/cosmos/cosmos-sdk/testutil/sims"
@@ -32,6 +33,7 @@ import (
 	authtypes "github.com/cosmos/cosmos-sdk/x/auth/types"
 	vestingtypes "github.com/cosmos/cosmos-sdk/x/auth/vesting/types"
 	banktypes "github.com/cosmos/cosmos-sdk/x/bank/types"
+	"github.com/cosmos/cosmos-sdk/x/crisis"
 	crisistypes "github.com/cosmos/cosmos-sdk/x/crisis/types"
 	govtypes "github.com/cosmos/cosmos-sdk/x/gov/types"
 	govv1 "github.com/cosmos/cosmos-sdk/x/gov/types/v1"
@@ -123,12 +125,19 @@ type Knobs struct {
 	// WhitelistGov: the governance account is whitelisted as a purchaser from genesis (it can raise
 	// orders through proposals)
 	WhitelistGov bool `json:"whitelist_gov,omitempty"`
+	// node start options that are part of the scenario
+	InvCheckPeriod        uint `json:"inv_check_period,omitempty"`        // --inv-check-period
+	SkipGenesisInvariants bool `json:"skip_genesis_invariants,omitempty"` // --x-crisis-skip-assert-invariants
+	// ManyDenoms: that many extra denominations (sorting before the native one) in the bank supply
+	ManyDenoms int `json:"many_denoms,omitempty"`
 }
 
 type GenOrder struct {
 	Purchaser int    `json:"purchaser"` // address code (actor index or negative module code)
 	Amount    string `json:"amount"`
 	Status    int    `json:"status"` // 1 raised, 2 accepted
+	// NoRaiseTime: the order carries raise_time 0
+	NoRaiseTime bool `json:"no_raise_time,omitempty"`
 }
 
 type BigReg struct {
@@ -230,6 +239,11 @@ func BuildGenesis(k *Knobs, actors []*Actor) (json.RawMessage, []abci.ValidatorU
 			p := vestingtypes.Periods{{Length: 86400 * 30, Amount: sdk.NewCoins(sdk.NewCoin(Native, bal.QuoRaw(4)))}, {Length: 86400 * 300, Amount: sdk.NewCoins(sdk.NewCoin(Native, bal.QuoRaw(2).Sub(bal.QuoRaw(4))))}}
 			ga = vestingtypes.NewPeriodicVestingAccount(base, half, genTime.Unix(), p)
 		}
+		if a.Idx == 0 && k.ManyDenoms > 0 {
+			for i := 0; i < k.ManyDenoms; i++ {
+				coins = coins.Add(sdk.NewInt64Coin(fmt.Sprintf("ibc/%040X", 1000+i*7919), int64(1+i)))
+			}
+		}
 		accs = append(accs, ga)
 		balances = append(balances, banktypes.Balance{Address: a.Bech(), Coins: coins})
 		supply = supply.Add(coins...)
@@ -285,6 +299,9 @@ func BuildGenesis(k *Knobs, actors []*Actor) (json.RawMessage, []abci.ValidatorU
 	if g := k.GenesisOrder; g != nil {
 		eg.StartingPurchaseOrderId = k.StartPO + 1
 		po := enttypes.EnterpriseUndPurchaseOrder{Id: k.StartPO, Purchaser: AddrOf(actors, g.Purchaser).String(), Amount: sdk.NewCoin(k.Ent.Denom, mustInt(g.Amount)), Status: enttypes.PurchaseOrderStatus(g.Status), RaiseTime: uint64(GenesisTS) - 10}
+		if g.NoRaiseTime {
+			po.RaiseTime = 0
+		}
 		if g.Status == 2 {
 			po.Decisions = append(po.Decisions, enttypes.PurchaseOrderDecision{Signer: actors[k.Ent.Signers[0]].Bech(), Decision: enttypes.StatusAccepted, DecisionTime: uint64(GenesisTS) - 5})
 		}
@@ -360,6 +377,7 @@ type Node struct {
 	// the one before or the one being committed
 	crashTorn bool
 	dbClosed  bool
+	AppOpts   map[string]interface{} // start options shared by every node of the world
 	curRec    *BlockRec // block being executed (for the fault-context measure)
 	curK      int
 }
@@ -393,7 +411,11 @@ func (n *Node) baseOpts() []func(*baseapp.BaseApp) {
 // Open creates the volatile application object on the node's durable DB (a process start).
 func (n *Node) Open() {
 	sealConfig()
-	n.App = app.NewApp(log.NewNopLogger(), n.DB, nil, true, simtestutil.AppOptionsMap{flags.FlagHome: "/nonexistent"}, n.baseOpts()...)
+	opts := simtestutil.AppOptionsMap{flags.FlagHome: "/nonexistent"}
+	for k, v := range n.AppOpts {
+		opts[k] = v
+	}
+	n.App = app.NewApp(log.NewNopLogger(), n.DB, nil, true, opts, n.baseOpts()...)
 	n.Down = false
 }
 
@@ -423,4 +445,16 @@ func MakeHeader(height int64, t time.Time, appHash []byte) tmproto.Header {
 func LastCommit() abci.CommitInfo {
 	val := ValidatorKey().PubKey().Address()
 	return abci.CommitInfo{Votes: []abci.VoteInfo{{Validator: abci.Validator{Address: val, Power: 1000}, SignedLastBlock: true}}}
+}
+
+// appOptsOf: the node start options a scenario prescribes (the same on every node of the world).
+func appOptsOf(k *Knobs) map[string]interface{} {
+	o := map[string]interface{}{}
+	if k.InvCheckPeriod > 0 {
+		o[server.FlagInvCheckPeriod] = k.InvCheckPeriod
+	}
+	if k.SkipGenesisInvariants {
+		o[crisis.FlagSkipGenesisInvariants] = true
+	}
+	return o
 }
